@@ -12,9 +12,10 @@ Section Fns.
   Definition half : F := lit (FLit (1 # 2)%Q 4602678819172646912 1056964608).
   Definition quarter : F := lit (FLit (1 # 4)%Q 4598175219545276416 1048576000).
   Definition nthd (x : list D) (i : nat) : D := nth i x (zero : D).
-  (* f_j(x) = e_j + sum_i (x_i * x_i * x_{(i+1) mod n}) * c(j,i) + x_{j mod n} * d_j *)
+  (* f_j(x) = e_j + sum_i (x_i * x_i * x_{(i+1) mod n}) * c(j,i) + x_{j mod n} * d_j; a constant e_j (no derivative parts) for odd j >= 3 *)
   Definition poly (x : list D) (j : nat) : D :=
     let n := length x in
+    if (Nat.leb 3 j && Nat.odd j)%bool then (ofF (half * (castZ (Z.of_nat j) : F)) : D) else
     let acc := fold_left (fun acc i => acc + (nthd x i * nthd x i * nthd x ((i + 1) mod n)) * cji j i) (seq 0 n)
                          (ofF (half * (castZ (Z.of_nat j) : F)) : D) in
     if Nat.eqb n 0 then acc else acc + nthd x (j mod n) * ((castZ 2 : F) + (castZ (Z.of_nat j) : F)).
